@@ -59,6 +59,17 @@ CHECKS = {
              "per-block cost; known finding: exponential specification generation on DUP-shared chains",
         technique="exhaustive single-fault enumeration (seam x call index x exception type) plus bounded-exhaustive "
                   "input families under resource budgets"),
+    "C14": dict(
+        level="exploration", engine="E1+E7", ref="DESIGN.md section 4 C14",
+        text="for every block of a prefix tree over 13 symbols (all kinds of splitting, terminal and store "
+             "instructions) and of filler blocks of length 18..27 with stores/splits at every subset of <=3 positions, "
+             "under the three policies: join of the reported sub-blocks = optimizable sequence, get_subblocks agrees, "
+             "every specification key/recorded instruction list/stack sizes match its sub-block, rebuild with {} and "
+             "all-None is the identity on all fields, and replacing sub-block k changes exactly segment k",
+        note="expected layouts are computed by an independent segmentation (mc/spec_eval.segments) and an independent "
+             "rendering of the plain text form; known finding: ASSIGNIMMUTABLE operand missing in the sub-block list",
+        technique="bounded-exhaustive enumeration of programs x split policies against an independent partition "
+                  "model"),
 }
 
 NOT_YET = "check not built yet in this session (planned in DESIGN.md section 4); nothing is claimed for it"
